@@ -212,6 +212,15 @@ class Codec:
                         viol.append(('C18', 'pgs_erroneous_tokens', '%r -> %r' % (arg, [str(s) for s in ss])))
                 if not codes and [str(s) for s in ss] != ['0']:
                     viol.append(('C18', 'pgs_empty', repr([str(s) for s in ss])))
+        if out[0] == 'ok' and rng.random() < 0.5:
+            # the answer depends on the arguments only: the other flag in between, then the same call again
+            other = call(lambda: pg(list(arg) if isinstance(arg, list) else arg, not add_err))
+            again = call(lambda: pg(list(arg) if isinstance(arg, list) else arg, add_err))
+            if again[0] != 'ok' or [str(s) for s in again[1]] != [str(s) for s in out[1]]:
+                viol.append(('C18', 'pgs_pure', '%r, add_erroneous=%r: %r at first, %r after asking with the other flag' % (
+                    arg, add_err, [str(s) for s in out[1]], [str(s) for s in again[1]] if again[0] == 'ok' else again[1])))
+            if other[0] == 'ok' and out[0] == 'ok' and any(a is b for a in other[1] for b in out[1]):
+                viol.append(('C18', 'pgs_pure', 'two calls share a setting object'))
         self.emit('pgs', inp, outcome(out, lambda ss: P.ok_strs([str(s) for s in ss])), 'parse_graphic_sequence(%r,%r)' % (arg, add_err), viol)
 
     def todict(self):
@@ -239,6 +248,24 @@ class Codec:
             d = out[1]
             if list(old.items()) != old_items or [str(s) for s in settings] != s_before:
                 viol.append(('C18', 'std_pure', 'arguments modified'))
+            if d is old:
+                viol.append(('C18', 'std_pure', 'the result is the prior-state argument itself'))
+            if rng.random() < 0.5:
+                # the result belongs to the caller: writing into it must change neither the prior state given
+                # nor what a later call without prior state starts from
+                d0 = call(lambda: std(settings))
+                if d0[0] == 'ok':
+                    ref0 = [(k, str(v)) for k, v in d0[1].items()]
+                    from ansi_string.ansi_param import AnsiParamEffect as _E
+                    d2 = call(lambda: std(settings, old))
+                    d0[1][_E.FG_COLOR] = S('31')
+                    if d2[0] == 'ok':
+                        d2[1][_E.BG_COLOR] = S('41'); d2[1].pop(_E.BOLDNESS, None)
+                    d1 = call(lambda: std(settings))
+                    if d1[0] != 'ok' or [(k, str(v)) for k, v in d1[1].items()] != ref0:
+                        viol.append(('C18', 'std_pure', 'settings_to_dict(%r) changed after its earlier result was written to' % (ss,)))
+                    if list(old.items()) != old_items:
+                        viol.append(('C18', 'std_pure', 'writing to the result changed the prior-state argument'))
             if all(T.is_group(t) or t == '0' for t in ss + old_ss):
                 codes = [c for t in ss for c in T.setting_codes(t)]
                 a_old = self.alpha(old)
@@ -333,6 +360,12 @@ class Codec:
         import ansi_string.ansi_string as core
         arg = P.build_sarg(a, self.mod)
         inp = P.line('scrub', P.e_sarg(a))
+        def _ascii(q):
+            if q[0] == 'str': return q[1].isascii()
+            if q[0] in ('list', 'tuple'): return all(_ascii(z) for z in q[1])
+            return True
+        if not _ascii(a):
+            inp = None      # Unicode case mapping of names is not modelled: implementation and oracle only
         out = call(lambda: core._AnsiSettingPoint._scrub_ansi_settings(arg, make_unique=True))
         viol = []
         if out[0] == 'err' and not isinstance(out[1], (TypeError, ValueError)):
@@ -387,7 +420,7 @@ class Codec:
                  ('strints', ('tuple', [('str', str(i)) for i in ints])),
                  ('verbatim_obj', ('list', [('obj', t) for t in ts]))]
         ref = A('x', m)
-        want = ([ref.settings_at(0)], str(ref))
+        want = ([ref.settings_at(0)], str(ref), [str(q) for q in ref.ansi_settings_at(0)], ref.is_formatting_parsable(), ref.to_str(optimize=False))
         viol = []
         for label, a in forms:
             out = self.scrub(a, 'spelling %s of %s' % (label, name))
@@ -395,7 +428,7 @@ class Codec:
             if r[0] != 'ok':
                 viol.append(('C14', 'spelling_equiv', '%s %s: %r' % (name, label, r[1])))
             else:
-                got = ([r[1].settings_at(0)], str(r[1]))
+                got = ([r[1].settings_at(0)], str(r[1]), [str(q) for q in r[1].ansi_settings_at(0)], r[1].is_formatting_parsable(), r[1].to_str(optimize=False))
                 if got != want:
                     viol.append(('C14', 'spelling_equiv', '%s %s (%r): %r vs %r' % (name, label, a, got, want)))
         v = A('x', '[' + ';'.join(ts))
@@ -498,6 +531,9 @@ class Codec:
                 elif k == 3 and i < len(t): t = t[:i] + t[i] + t[i:]
                 elif k == 4: t = t[:i] + rng.choice('_-;,()x0') + t[i:]
                 else: t = t.upper() if rng.random() < 0.5 else t.replace(' ', '')
+            if rng.random() < 0.2:
+                t = ''.join({'k': '\u212a', 'i': '\u0131', 's': '\u017f', 'K': '\u212a', 'S': '\u017f', 'I': '\u0130'}.get(c, c)
+                            if rng.random() < 0.5 else c for c in t)
             self.scrub(('str', t), 'near-miss %r of %r' % (t, base))
             if rng.random() < 0.3:
                 self.scrub(('list', [('str', t), ('str', base)]), 'near-miss pair')
